@@ -157,6 +157,12 @@ func c11AllDocs() []c11Doc {
 		c11Doc{c11Base: c11Base{Name: "literals-half-variable", Calls: []c11Call{{"A", map[string]interface{}{"n": "x", "m": 1}}, {"A", map[string]interface{}{"n": "y", "m": 2}}, {"A", nil}, {"B", nil}, {"B", map[string]interface{}{"m": 9}}}},
 			Text: "query A($n: String = \"dn\", $m: Int = 5) { a { ...F } p1: pick(ss: [$n, \"lit\"]) p2: pick(ss: [\"lit\", $n]) p3: pick(ss: [\"l\", $n, \"r\"]) p4: pick(fs: [{min: $m}, {min: 0}]) p5: pick(in: {min: 1, sub: {min: $m}}) p6: pick(ids: [$m, 10]) } " +
 				"query B($m: Int = 7) { a { ...F } p4: pick(fs: [{min: $m}, {min: 0}]) p6: pick(ids: [$m, 10]) } fragment F on A { pick(fs: [{min: $m, sub: {min: 3}}, {min: 2}]) }"},
+		// one named fragment with an object condition spread below a field of that object type and below abstract-typed fields
+		// (interface list, union list), reached by different operations and by one operation with a switch: whether it applies is
+		// a matter of the place and of the object, each time
+		c11Doc{c11Base: c11Base{Name: "object-fragment-under-concrete-and-abstract-fields", Calls: []c11Call{{"X", nil}, {"Y", nil}, {"X", nil}, {"Z", map[string]interface{}{"off": true}}, {"Z", map[string]interface{}{"off": false}}, {"Y", nil}}},
+			Text: "query X { as { ...FA } a { ...FA } } query Y { nameds { ...FA name } us { ...FA } named { ...FA } } " +
+				"query Z($off: Boolean = false) { as @skip(if: $off) { ...FA } nameds { ...FA } kids { ...FA } } fragment FA on A { id i }"},
 		c11Doc{c11Base: c11Base{Name: "literals-of-another-kind", Calls: []c11Call{{"", nil}, {"", map[string]interface{}{}}}}, Text: c11KindsText(), Own: true},
 	)
 }
